@@ -773,6 +773,13 @@ func (p *Prog) expandHelpers(t *Term, depth int) *Term {
 	cur := t
 	if changed {
 		cur = normTerm(&Term{Op: t.Op, Obj: t.Obj, Int: t.Int, Str: t.Str, Args: args, Pos: t.Pos})
+		// !helper() with helper = (a >= b): push the negation into the comparison that appeared
+		if cur.Op == "not" && len(cur.Args) == 1 {
+			switch cur.Args[0].Op {
+			case "<", "<=", "==", "!=", "&&", "||", "not", "true", "false":
+				cur = Negate(cur.Args[0])
+			}
+		}
 	}
 	if cur.Op != "call" {
 		return cur
